@@ -12,7 +12,7 @@ CHECKS = {
     "C10": (
         "exploration",
         "property-based testing (Hypothesis): generated messages x file flavours; round-trip against an independent normal form, write/flush call-log oracle, binary/text differential",
-        "Generated-input search: every generated message (JSON-native corners, documented rich types, custom json_default) is written through FileDestination to ten file flavours (real files, in-memory, codecs writers, spooled files; optionally one flush that would block) behind a recording proxy; the exact write/flush sequence, line validity, decoded content and cross-mode equality are checked against an independent model. Holds on everything generated, not a proof.",
+        "Generated-input search: every generated message (JSON-native corners, documented rich types, custom json_default) is written through FileDestination to ten file flavours (real files, in-memory, codecs writers, spooled files; optionally one flush that would block; json_default extensions that do or do not fall back on eliot's) behind a recording proxy, and messages offered from inside a write()/flush() call (a signal handler that logs; a blocked call is recognised by a watchdog); the exact write/flush sequence, line validity, decoded content and cross-mode equality are checked against an independent model. Holds on everything generated, not a proof.",
         "Trusts CPython json.loads as reader and the harness's normal-form function; NumPy/Pandas/Polars not installable here; two third-party encoder defects are open known findings (F8, F9).",
         "DESIGN.md section 3 C10",
     ),
@@ -25,7 +25,7 @@ CHECKS = {
     ),
     "C02": (
         "exploration",
-        "property-based testing (Hypothesis): generated programs x destination fault masks; history invariants over the healthy observer's message list (uniqueness, contiguity 1..n, start/end placement, causal order); schedule exploration (source-line and bytecode granularity) of threads logging inside one shared action",
+        "property-based testing (Hypothesis): generated programs x destination fault masks; history invariants over the healthy observer's message list (uniqueness, contiguity 1..n, start/end placement, causal order); schedule exploration (source-line and bytecode granularity) of threads logging inside one shared action or with no current action, with freshness of the positions serialize_task_id hands out",
         "Generated programs, alone and next to destinations that raise on generated subsets of calls; the healthy observer's list must satisfy the stated uniqueness/contiguity/order invariants, with failure reports as ordinary tree members. Concurrent schedules are covered through the C05 runs. Holds on everything generated.",
         "Trusts pbt/reftree.py and pbt/invariants.py. One genuine defect (F7) is an open known finding, excluded by construction and reproduced on every run.",
         "DESIGN.md section 3 C02",
@@ -75,7 +75,7 @@ CHECKS = {
     "C13": (
         "fault_enumeration",
         "property-based testing / fault injection (Hypothesis): typed emissions with counting non-idempotent serializers x fault masks (raising serializers, omitted fields); exactly-once, non-mutation and report-placement oracles; concurrent facets under harness-owned schedules (source-line and bytecode granularity) incl. one type first used by racing threads",
-        "Generated scenarios of typed messages/actions (start, success, failure, stand-alone, direct Logger.write) with counting wrappers around non-idempotent serializers and generated fault masks; delivered values, call counts, caller data, and the number and placement of traceback + serialization_failure reports are checked per emission. Holds on everything generated.",
+        "Generated scenarios of typed messages/actions (start, success, failure, stand-alone, direct Logger.write) with counting wrappers around non-idempotent serializers and generated fault masks; delivered values, call counts, caller data, and the number (exactly one each, also when several serializers of one message fail or a serializer raises eliot.ValidationError) and placement of traceback + serialization_failure reports are checked per emission. Holds on everything generated.",
         "Serializers are pure and raise Exception subclasses; exactly-once is asserted on the Logger -> destinations path only.",
         "DESIGN.md section 3 C13",
     ),
@@ -95,7 +95,7 @@ CHECKS = {
     ),
     "C06": (
         "exploration",
-        "property-based testing (Hypothesis): programs with hand-offs (inline, thread, forked process with its own log file) x merge permutations, model equality of the parsed merged log; schedule exploration at source-line and bytecode-instruction granularity (generated + enumerated single-preemption plans) of concurrent calls of one preserve_context callable; sequential call histories with arbitrary keyword arguments",
+        "property-based testing (Hypothesis): programs with hand-offs (inline, thread, forked process with its own log file) x merge permutations, model equality of the parsed merged log; schedule exploration at source-line and bytecode-instruction granularity (generated + enumerated single-preemption plans) of concurrent calls of one preserve_context callable and of threads handing out ids (serialize_task_id / preserve_context) while others log in the same action; sequential call histories with arbitrary keyword arguments and callable kinds (plain, functools.wraps-decorated, callable object, partial, bound method)",
         "Generated programs hand work to other threads/processes at arbitrary depths (multi-hop, many ids), the sides' logs are merged in a generated order and must parse to the model forest; the single-use guarantee of preserve_context is explored under harness-owned interleavings of 2-3 threads at source-line and bytecode granularity in eliot/_action.py. Holds on everything explored.",
         "Ids used twice or never are outside the quantifier. Scheduler assumption as for C16.",
         "DESIGN.md section 3 C06",
@@ -130,7 +130,7 @@ CHECKS = {
     ),
     "C18": (
         "exploration",
-        "property-based differential testing (Hypothesis): generated function sources (all parameter kinds, colliding names, methods) x decorator options x valid and random argument lists; decorated vs undecorated behaviour and logged arguments vs inspect.signature binding",
+        "property-based differential testing (Hypothesis): generated function sources (all parameter kinds, colliding names, methods) x decorator options x valid and random argument lists; decorated vs undecorated behaviour and logged arguments vs inspect.signature binding; schedule exploration (source-line and bytecode granularity) of threads making the first calls of one decorated function",
         "Generated functions are exec'd, decorated with generated options and called with generated (often unbindable) argument lists; results, raised objects, TypeErrors, the logged start/end messages and the wrapper's metadata are compared with the undecorated function and Python's own binding. Holds on everything generated.",
         "Positional-only parameters are an open known finding (F4, third-party boltons) excluded by construction and reproduced on every run.",
         "DESIGN.md section 3 C18",
@@ -138,7 +138,7 @@ CHECKS = {
     "C19": (
         "fault_enumeration",
         "property-based testing over schedules and fault masks (Hypothesis): real producer/writer threads around a gated destination that fixes how much is written when stop is requested, plus the reader thread, producers and stopService run as workers of a harness-owned scheduler over eliot/logwriter.py at source-line and bytecode-instruction granularity (generated plans + enumerated preemptions); exact sequence, thread-identity and stop-completion oracles",
-        "Generated start/stop cycles, producer mixes, destination failure masks and gate positions drive a real ThreadedWriter; the wrapped destination must see exactly the offered sequence on one foreign thread, producers must not wait for output, and stopService's result must complete exactly after the queued tail is written. Holds on everything generated.",
+        "Generated start/stop cycles, producer mixes, destination failure masks and gate positions drive a real ThreadedWriter (failures of the classes real outputs raise, incl. BlockingIOError; bounded waits of the code under test are taken to run out, the harness owning the clock); the wrapped destination must see exactly the offered sequence on one foreign thread, producers must not wait for output, and stopService's result must complete exactly after the queued tail is written. Holds on everything generated.",
         "Uses small stand-ins for twisted.application.service.Service and twisted.internet.threads.deferToThreadPool (Twisted not installable).",
         "DESIGN.md section 3 C19",
     ),
